@@ -36,8 +36,8 @@ def statHit (cfg : Cfg) (f : FileSt) (inc : Inc) : Bool :=
     | some m, none => f.mtime == m
     | _, _ => false
 
-/-- `result_matches` (after the fix of F-C04-a: with `ignore_time_macros` every include is compared); note the
-    skipped comparison when a time macro is present (F-C04-b) -/
+/-- `result_matches` after the fixes of F-C04-a (with `ignore_time_macros` every include is compared) and F-C04-b (contents are compared
+    whether or not the file mentions a time macro; `__TIME__` and `__DATE__` never hit; `__TIMESTAMP__` hits only at the recorded mtime) -/
 def resultMatches (cfg : Cfg) (fs : FS) : List Inc → Bool
   | [] => true
   | inc :: rest =>
@@ -48,10 +48,27 @@ def resultMatches (cfg : Cfg) (fs : FS) : List Inc → Bool
       else if statHit cfg f inc then resultMatches cfg fs rest
       else if cfg.ignoreTimeMacros then inc.digest == f.content && resultMatches cfg fs rest
       else
+        if inc.digest != f.content then false
+        else if f.hasTime then false
+        else if f.hasDate then false
+        else if f.hasTimestamp && inc.mtime != some f.mtime then false
+        else resultMatches cfg fs rest
+
+/-- the same function before the fix of F-C04-b: no comparison at all for a file that mentions a time macro -/
+def resultMatchesBefore (cfg : Cfg) (fs : FS) : List Inc → Bool
+  | [] => true
+  | inc :: rest =>
+    match fs inc.path with
+    | none => false
+    | some f =>
+      if f.size != inc.size then false
+      else if statHit cfg f inc then resultMatchesBefore cfg fs rest
+      else if cfg.ignoreTimeMacros then inc.digest == f.content && resultMatchesBefore cfg fs rest
+      else
         let anyTM := f.hasDate || f.hasTime || f.hasTimestamp
         if !anyTM && inc.digest != f.content then false
         else if f.hasTime then false
-        else resultMatches cfg fs rest
+        else resultMatchesBefore cfg fs rest
 
 /-- what `add_result` records for a file (at compile start `t0`) -/
 def record (t0 : Nat) (path : Nat) (f : FileSt) : Inc :=
@@ -71,13 +88,12 @@ def NoTimeMacros (fs : FS) (incs : List Inc) : Prop :=
 def TimeMacroFree (cfg : Cfg) (fs : FS) (incs : List Inc) : Prop :=
   cfg.ignoreTimeMacros = true ∨ NoTimeMacros fs incs
 
-/-- C04 `manifest_hit_sound_partial`: for every option combination, every recorded include list and every file
+/-- C04 `manifest_hit_sound`: for every option combination, every recorded include list and every file
     system evolved from the recorded one, a manifest hit implies that **every** recorded include still has its
-    recorded contents — provided no header holds time-macro text under the default handling (F-C04-b). -/
-theorem manifest_hit_sound_partial (cfg : Cfg) (t0 : Nat) (fs0 fs1 : FS)
+    recorded contents (since the fix of F-C04-b also when headers hold time-macro text). -/
+theorem manifest_hit_sound (cfg : Cfg) (t0 : Nat) (fs0 fs1 : FS)
     (hev : EvolvedSince t0 fs0 fs1)
     (incs : List Inc) (hrec : ∀ inc ∈ incs, ∃ f0, fs0 inc.path = some f0 ∧ inc = record t0 inc.path f0)
-    (hntm : TimeMacroFree cfg fs1 incs)
     (hm : resultMatches cfg fs1 incs = true) :
     ∀ inc ∈ incs, ∃ f1, fs1 inc.path = some f1 ∧ f1.content = inc.digest := by
   induction incs with
@@ -92,12 +108,8 @@ theorem manifest_hit_sound_partial (cfg : Cfg) (t0 : Nat) (fs0 fs1 : FS)
       by_cases hsz : (f1.size != inc.size) = true
       · simp [hsz] at hm
       · simp only [hsz] at hm
-        have hntm' : TimeMacroFree cfg fs1 rest := by
-          rcases hntm with h | h
-          · exact Or.inl h
-          · exact Or.inr (fun x hx => h x (by simp [hx]))
         have hrest : ∀ (h' : resultMatches cfg fs1 rest = true), ∀ x ∈ rest, ∃ f, fs1 x.path = some f ∧ f.content = x.digest :=
-          fun h' => ih (fun x hx => hrec x (by simp [hx])) hntm' h'
+          fun h' => ih (fun x hx => hrec x (by simp [hx])) h'
         by_cases hst : statHit cfg f1 inc = true
         · simp only [hst, if_true] at hm
           -- stat hit: recorded ctime < t0, equal to the current one, so the file is unchanged
@@ -125,20 +137,46 @@ theorem manifest_hit_sound_partial (cfg : Cfg) (t0 : Nat) (fs0 fs1 : FS)
             · subst e; exact ⟨f1, hfs, hm.1.symm⟩
             · exact hrest hm.2 x hx'
           · have hig' : cfg.ignoreTimeMacros = false := by simpa using hig
-            have hnt : f1.hasDate = false ∧ f1.hasTime = false ∧ f1.hasTimestamp = false := by
-              rcases hntm with h | h
-              · rw [hig'] at h; cases h
-              · exact h inc (by simp) f1 hfs
             simp only [hig', Bool.false_eq_true, if_false] at hm
-            simp only [hnt.1, hnt.2.1, hnt.2.2, Bool.or_false, Bool.not_false, Bool.true_and] at hm
             by_cases hd : (inc.digest != f1.content) = true
             · simp [hd] at hm
             · simp only [hd] at hm
               have hc' : inc.digest = f1.content := by simpa using hd
+              have hr : resultMatches cfg fs1 rest = true := by
+                by_cases h1 : f1.hasTime = true
+                · simp [h1] at hm
+                · by_cases h2 : f1.hasDate = true
+                  · simp [h1, h2] at hm
+                  · by_cases h3 : (f1.hasTimestamp && inc.mtime != some f1.mtime) = true
+                    · simp [h1, h2, h3] at hm
+                    · simpa [h1, h2, h3] using hm
               intro x hx
               rcases List.mem_cons.mp hx with e | hx'
               · subst e; exact ⟨f1, hfs, hc'.symm⟩
-              · exact hrest (by simpa using hm) x hx'
+              · exact hrest hr x hx'
+
+/-- `__TIMESTAMP__` expands to the header's modification time: a hit on a header that mentions it (default handling, no stat hit)
+    implies the header still has the modification time it was recorded with — and a header that mentions `__DATE__` or `__TIME__` never hits -/
+theorem time_macro_header_hit (cfg : Cfg) (fs : FS) (inc : Inc) (rest : List Inc) (f : FileSt)
+    (hf : fs inc.path = some f) (hcfg : cfg.ignoreTimeMacros = false) (hst : statHit cfg f inc = false)
+    (hm : resultMatches cfg fs (inc :: rest) = true) :
+    f.hasTime = false ∧ f.hasDate = false ∧ (f.hasTimestamp = true → inc.mtime = some f.mtime) := by
+  simp only [resultMatches, hf, hst, hcfg] at hm
+  by_cases hsz : (f.size != inc.size) = true
+  · simp [hsz] at hm
+  · simp only [hsz] at hm
+    by_cases hd : (inc.digest != f.content) = true
+    · simp [hd] at hm
+    · simp only [hd] at hm
+      by_cases h1 : f.hasTime = true
+      · simp [h1] at hm
+      · by_cases h2 : f.hasDate = true
+        · simp [h1, h2] at hm
+        · refine ⟨by simpa using h1, by simpa using h2, ?_⟩
+          intro h3
+          by_cases h4 : (inc.mtime != some f.mtime) = true
+          · simp [h1, h2, h3, h4] at hm
+          · simpa using h4
 
 /-- F-C04-a (fixed in /repo): with `ignore_time_macros`, an edit of the *second* header is now detected.
     On the pinned tree this evaluated to `true` (the loop returned after the first include). -/
@@ -147,12 +185,18 @@ theorem ignore_time_macros_second_header_detected :
     let fs1 : FS := fun p => if p = 0 then some ⟨10, 5, 1, 1, false, false, false⟩ else if p = 1 then some ⟨99, 5, 9, 9, false, false, false⟩ else none
     resultMatches cfg fs1 [⟨0, 10, 5, none, none⟩, ⟨1, 20, 5, none, none⟩] = false := by decide
 
-/-- F-C04-b: a header containing `__DATE__` is never content-compared -/
+/-- F-C04-b (fixed): before the fix a header containing `__DATE__` was never content-compared; now the same state misses -/
 theorem date_header_witness :
     let cfg : Cfg := ⟨false, true, false⟩
     let fs1 : FS := fun p => if p = 0 then some ⟨77, 5, 1, 1, true, false, false⟩ else none
-    resultMatches cfg fs1 [⟨0, 10, 5, none, none⟩] = true := by decide
+    resultMatchesBefore cfg fs1 [⟨0, 10, 5, none, none⟩] = true ∧ resultMatches cfg fs1 [⟨0, 10, 5, none, none⟩] = false := by decide
 
-#print axioms manifest_hit_sound_partial
+/-- … and a touched header that uses `__TIMESTAMP__` (same contents, new mtime) was a hit -/
+theorem timestamp_header_witness :
+    let cfg : Cfg := ⟨false, true, false⟩
+    let fs1 : FS := fun p => if p = 0 then some ⟨10, 5, 9, 9, false, false, true⟩ else none
+    resultMatchesBefore cfg fs1 [⟨0, 10, 5, some 1, some 1⟩] = true ∧ resultMatches cfg fs1 [⟨0, 10, 5, some 1, some 1⟩] = false := by decide
+
+#print axioms manifest_hit_sound
 
 end ManifestM
